@@ -236,6 +236,29 @@ def r3_check_mode(ctx):
                 return frozenset(x for x in l if 1 <= x <= w.raw['argc'])
             same = [roots(x) for x in a1] == [roots(x) for x in a2]
         ctx.ob('C10.R3', 'same-predicate-inputs', same, w.loc(), 'both arms are applied to the same (path, content) parameters')
+        # what is recorded as outdated is decided by that predicate alone: anything else makes --check disagree with a normal run
+        from ..govern import controlling_switches
+        from .compiler_common import expand_same_file
+        rec = [bb for bb, t in w.calls() if (callee(t) or '').split('::')[-1] == 'insert' and t['aty'] and 'PathBuf' in t['aty'][0] and guard_context(w, bb).get(MODE) == {'CheckOnly'}]
+        if ctx.need('C10.R3', 'recording of an outdated path in the CheckOnly arm', rec):
+            defs_w = Defs(w)
+            extra = set()
+            for sb, st in controlling_switches(w, rec[0]):
+                if 'enum' in st and strip_generics(st['enum']) == MODE:
+                    continue
+                pl = op_place(st['d']) if 'd' in st else None
+                src = st.get('src')
+                l = src['l'] if src else (pl['l'] if pl else None)
+                if l is None:
+                    continue
+                sl, _ = backward_slice(w, l, defs_w)
+                for c, _, _ in slice_calls(sl):
+                    c = strip_generics(c or '')
+                    if c in (PIC + 'has_changed_file2buffer', 'core::ops::try_trait::Try::branch') or c.split('::')[-1] in ('deref', 'deref_mut', 'as_ref', 'borrow'):
+                        continue
+                    extra.add(c)
+            ctx.ob('C10.R3', 'outdated-iff-changed', not extra, w.loc(rec[0]),
+                   'in --check mode a file is recorded as outdated exactly when has_changed_file2buffer says so; other conditions involved: %s' % (sorted(extra) or 'none'))
     v = ctx.need('C10.R3', 'AppWriter::verify', ctx.fb.body('pavexc', AW + 'verify'))
     if v is not None:
         emp = [bb for bb, t in v.calls() if (callee(t) or '').endswith('::is_empty')]
@@ -279,6 +302,36 @@ def r4_cache_key(ctx):
         m = re.search(r'\(([^)]*)\)\s*VALUES', s, re.I)
         icols = {c.strip().lower() for c in m.group(1).split(',')} if m else set()
         ctx.ob('C10.R4', 'insert-covers-key', {c.lower() for c in pkcols} <= icols, b.loc(bb, t), 'INSERT writes %d columns including the whole key: %s' % (len(icols), {c.lower() for c in pkcols} <= icols))
+
+
+def r4b_source_hash_covers_src(ctx):
+    import re as _re
+    ctx.rule('C10.R4b', 'P9 constant: the source checksum that keys the documentation cache of a path dependency covers every file under `src/` '
+             '(default include pattern `src/**`, no extension filter): `include!` / `include_str!` can pull any of them into the documentation, '
+             'and a file left out of the hash lets a warm cache serve documentation generated from its old contents.')
+    bodies = ctx.fb.bodies_of_item('rustdoc_processor', 'rustdoc_processor::cache::checksum::get_file_paths')
+    if not ctx.need('C10.R4b', 'rustdoc_processor::cache::checksum::get_file_paths', bodies):
+        return
+    strs = set()
+    for b in bodies:
+        for bb, blk in enumerate(b.blocks):
+            nodes = list(blk['st']) + ([blk['term']] if blk['term'] else [])
+            for node in nodes:
+                ops = []
+                if 'rv' in node:
+                    from ..flow import rv_operands
+                    ops = rv_operands(node['rv'])[0]
+                elif node.get('k') == 'call':
+                    ops = node['args']
+                for o in ops:
+                    if isinstance(o, dict) and 'str' in o:
+                        strs.add(o['str'])
+                    elif isinstance(o, dict) and o.get('promoted') is not None:
+                        from ..flow import promoted_strs
+                        strs |= set(promoted_strs(ctx.fb, b, int(o['promoted'])))
+    whole = sorted(x for x in strs if _re.match(r'^src/\*\*(/\*)?$', x))
+    ctx.ob('C10.R4b', 'src-fully-hashed', bool(whole), bodies[0].loc(), 'include patterns among the constants of get_file_paths: %s; covering all of src/: %s' % (
+        sorted(x for x in strs if '/' in x or '*' in x)[:6], whole or 'NONE'))
 
 
 def r5_parallel(ctx):
@@ -421,6 +474,7 @@ def check(ctx):
     r2_single_writer(ctx)
     r3_check_mode(ctx)
     r4_cache_key(ctx)
+    r4b_source_hash_covers_src(ctx)
     r5_parallel(ctx)
     r6_manifest_is_overwritten(ctx)
     r7_cacheability(ctx)
